@@ -30,6 +30,34 @@ TRUSTED = [
     "debug-profile build with overflow checks (as in /repo's release profile); a 256 MB worker stack",
 ]
 
+WITNESSES = os.path.join(vlib.ROOT, "corpus", "C14", "witnesses")
+
+
+def store_witnesses(run_dir=None):
+    """Copies the witnesses of the findings of the last run into corpus/C14/witnesses (one file per site)."""
+    import re
+    run_dir = run_dir or os.path.join(vlib.OUT, "C14", "run")
+    os.makedirs(WITNESSES, exist_ok=True)
+    n = 0
+    for f in json.load(open(os.path.join(run_dir, "findings.json"))):
+        full = json.load(open(f["file"]))
+        if full.get("stored_witness"):
+            continue
+        has_input = full.get("entry") or (isinstance(full.get("input"), dict) and full["input"].get("entry"))
+        if not has_input:
+            continue
+        slug = re.sub(r"[^A-Za-z0-9.]+", "_", full["fingerprint"].replace("crates/", ""))[:110]
+        dst = os.path.join(WITNESSES, slug + ".json")
+        if os.path.exists(dst):
+            old = json.load(open(dst))
+            if old.get("size", 1 << 60) <= full.get("size", 1 << 60) and old.get("entry"):
+                continue
+        full.pop("file", None)
+        json.dump(full, open(dst, "w"), indent=1)
+        n += 1
+    return n
+
+
 THEOREMS = ["C14_de_total_bounded", "C14_decompress_total", "C14_annot_total", "C14_accepted_in_range"]
 
 
@@ -62,6 +90,8 @@ def run(ctx):
         env = vlib.env_offline()
         # jobs not started by the deadline are skipped and counted (shared machine): the tier's wall-time budget
         env.setdefault("H14_DEADLINE_S", "1500" if ctx.thorough else "175")
+        # witnesses of earlier findings are re-run first on every run (seed-independent detection of known sites)
+        env.setdefault("H14_WITNESSES", WITNESSES)
         rc, out = vlib.run([vlib.harness_bin("h14"), cdir, run_dir, ctx.tier], timeout=4000 if ctx.thorough else 900,
                            env=env)
         if rc != 0 or not os.path.exists(os.path.join(run_dir, "summary.json")):
